@@ -131,6 +131,7 @@ func runProperty(repo, verif, prop string, cfg *PropCfg, tier string, overlay ma
 	res := &PropResult{Prop: prop, Tier: tier}
 	e := NewEngine(repo, verif)
 	e.Overlay = overlay
+	e.CurProp = prop
 	if err := e.LoadSpecs(); err != nil {
 		res.LoadErr = "contract files: " + err.Error()
 		return res
